@@ -144,7 +144,11 @@ def choose_oils(ctx: core.Ctx) -> list[tuple]:
         if o not in seen:
             seen.add(o)
             out.append(o)
-    return out
+    # the box corners and every 7th oil are measured again in the further call styles (column-major 2-d field; facade on a column
+    # with repeated pressures) - listed after the others so that nothing about the first pass changes
+    again = corners + [o for i, o in enumerate(out) if i % 7 == 3 and o not in corners]
+    ctx.extra["oils_in_further_call_styles"] = len(again)
+    return out + [o + (st,) for st in drv.EXTRA_STYLES for o in again]
 
 
 def replay(ctx: core.Ctx, obj: dict) -> None:
@@ -167,7 +171,9 @@ def run(ctx: core.Ctx) -> None:
                 "sweep = 112 ladder points 15 psia .. p_b(1-+2^-k), k=1..50, nextafter neighbours, p_b itself .. 2.5 p_b; "
                 "distinct = oil")
     ctx.assumptions += [
-        "scalar branches are called with Python floats",
+        "scalar branches are called with Python floats or numpy scalars; array branches with 1-d columns in three orders, and for "
+        "a seventh of the oils also with a column-major 2-d field and through Fluid.oil_FVF / Fluid.oil_viscosity on a column in "
+        "which every pressure occurs twice (the two answers must agree to 1e-13)",
         "the bubble point is the library's pressure_bubblepoint_Standing(T, API, gg, GOR_i) (the mark of the sweep)",
         "rounding allowances at the mark (SweepC12.tla): 4e-15 relative for the round trip p_b(GOR_i) -> R_s(p), "
         "1e-14 for mu_o; strict rise/fall of B_o is demanded between points at least 2^-31 p_b apart",
